@@ -154,6 +154,30 @@ def max_rel_err(A, B):
 
 
 # ----------------------------------------------------------------------------- driver
+def relayout(ctx, a, prob=0.35, kinds=("fortran", "strided")):
+    """the same values in another legal memory layout (the properties speak about values, not about how the caller's
+    array is stored): Fortran order, a non-contiguous view of a larger array, or a read-only array; with probability
+    1-prob the array itself.  Returns (array, tag)."""
+    import numpy as np
+
+    if not isinstance(a, np.ndarray) or a.ndim < 2 or a.size == 0 or ctx.rng.random() >= prob:
+        return a, "as-is"
+    kind = ctx.rng.choice(list(kinds))  # "readonly" only where the check already demands that the input is left untouched
+    if kind == "fortran":
+        out = np.asfortranarray(a)
+    elif kind == "strided":
+        big = np.empty(tuple(2 * n for n in a.shape), dtype=a.dtype)
+        big[...] = np.nan if a.dtype.kind in "fc" else 0
+        sl = tuple(slice(0, 2 * n, 2) for n in a.shape)
+        big[sl] = a
+        out = big[sl]
+    else:
+        out = np.array(a, copy=True)
+        out.setflags(write=False)
+    ctx.count(f"layout_{kind}")
+    return out, kind
+
+
 class ModelError(Exception):
     pass
 
